@@ -101,14 +101,14 @@ Qed.
 
 (* the opening-fee block of Create / Draw / stable Create / stable Deposit: the draw-down fee goes
    to the collector, the rest of the freshly minted amount to the sender *)
-Lemma deliver_spec s from d x ddf s' : 0 < x -> 0 <= ddf < P18 ->
-  (if (ddf =? 0) && (x >? 0) then send s VAULT from d x else pay_out s from d x ddf) = Ok s' ->
+Lemma deliver_spec s from d x ddf (g : bool) s' : 0 < x -> 0 <= ddf < P18 -> g = true ->
+  (if (ddf =? 0) && g then send s VAULT from d x else pay_out s from d x ddf) = Ok s' ->
   (ddf = 0 \/ fee_share x ddf = Some (feeq x ddf)) /\
   exists b', s' = set_bal s b' /\
     forall a y, b' a y = bal s a y + xfer VAULT COLL d (feeq x ddf) a y + xfer VAULT from d (x - feeq x ddf) a y.
 Proof.
-  intros Hx Hd. destruct (Z.eqb_spec ddf 0) as [->|Hne]; cbn [andb].
-  - destruct (Z.gtb_spec x 0); [|lia]. intros Hok. apply send_spec in Hok. destruct Hok as (_ & b' & -> & Hb).
+  intros Hx Hd ->. destruct (Z.eqb_spec ddf 0) as [->|Hne]; cbn [andb].
+  - intros Hok. apply send_spec in Hok. destruct Hok as (_ & b' & -> & Hb).
     split; [left; reflexivity|]. exists b'. split; [reflexivity|]. intros a y. rewrite Hb, feeq_zero.
     unfold xfer. destruct ((a =? COLL) && (y =? d)), ((a =? VAULT) && (y =? d)), ((a =? from) && (y =? d)); lia.
   - unfold pay_out. destruct (fee_share x ddf) as [sh|] eqn:F; [|discriminate].
